@@ -60,7 +60,9 @@ def _gen_proxy(rng, i):
     return {"family": "proxy." + mode + (".other-family-present" if other else ""), "kind": "proxy", "mode": mode, "hops": hops, "elems": elems, "split": split, "sp": sp,
             "other_family": other, "style": rng.choice(["plain", "plain", "quoted", "caps", "capitalised"]) if mode == "modern" else "plain",
             "scope_type": rng.choice(["http", "websocket"]), "prefix": [{"for": "6.6.6.6", "proto": "https", "host": "attacker.example", "has": [True, True, True]}
-                                                                        for _ in range(rng.choice([1, 2]))]}
+                                                                        for _ in range(rng.choice([1, 2]))],
+            # (h11_pass_raw_headers: the request's own Host line reaches the scope in the client's spelling)
+            "host_name": rng.choice([b"host", b"host", b"Host", b"HOST"])}
 
 
 def _proxy_headers(case, elems):
@@ -104,7 +106,7 @@ def _proxy_headers(case, elems):
             hs.append((b"x-forwarded-host", ", ".join(["attacker.example"] * k).encode()))
         else:
             hs.append((b"forwarded", ", ".join(["for=6.6.6.6;proto=https;host=attacker.example"] * k).encode()))
-    hs.append((b"host", b"original.example"))
+    hs.append((case.get("host_name", b"host"), b"original.example"))
     return hs
 
 
